@@ -5,7 +5,7 @@ All permutations of the argument list, each file given directly or through a dir
 strong and external equivalence; the emitted problem set must equal the one of the canonical
 call computed by the reference rule. Swapping the two programs must swap exactly the roles of
 axioms and conjectures between directions."""
-import os, sys, itertools, shutil, subprocess, re
+import os, sys, itertools, shutil, subprocess, re, json
 from concurrent.futures import ThreadPoolExecutor
 sys.path.insert(0, os.path.dirname(__file__))
 from common import *
@@ -70,7 +70,36 @@ def strip_names(text):
         if m: out.append((m.group(2), m.group(3)))
     return out
 
+def replay(path):
+    a = json.load(open(path))["replay"]
+    anthem = build_anthem()
+    if "arguments" not in a:
+        print("replay: swap artefacts are re-run by the full check"); sys.exit(2)
+    base = scratch("c20p_")
+    try:
+        layout = a["directories"]
+        for arg in a["arguments"]:
+            if arg in layout:
+                os.mkdir(os.path.join(base, arg))
+                for f in layout[arg]: open(os.path.join(base, arg, f), "w").write(FILES[f])
+            else:
+                open(os.path.join(base, arg), "w").write(FILES[arg])
+        code, probs, err = problems_of(anthem, ["--equivalence", a["equivalence"]] + a["arguments"], base)
+        roles = reference_roles(a["arguments"], layout)
+        cargs = canonical_args(a["equivalence"], roles)
+        d2 = scratch("c20q_")
+        for f in cargs or []: open(os.path.join(d2, f), "w").write(FILES[f])
+        ccode, cprobs, _ = problems_of(anthem, ["--equivalence", a["equivalence"]] + (cargs or []), d2)
+        shutil.rmtree(d2, ignore_errors=True)
+        same = (code == ccode and probs == cprobs)
+        print("replay", a["equivalence"], a["arguments"], layout, "-> canonical", cargs, "identical" if same else "DIFFERENT")
+        sys.exit(0 if same else 1)
+    finally:
+        shutil.rmtree(base, ignore_errors=True)
+
 def main():
+    if "--replay" in sys.argv:
+        replay(sys.argv[sys.argv.index("--replay") + 1])
     tier = tier_from_args()
     anthem = build_anthem()
     run = Run("C20", tier)
